@@ -11,6 +11,9 @@ public key) and the real server stack.
             of the same server, salts, tokens, re-signing, signature damage),
             challenge responses forged in clear / under attacker keys / taken
             from another session
+ crafted    single crafted datagrams (CRC form / attacker key), including multi-message ones whose
+            inner types differ from the header type, to an unknown address, a half-open connection
+            and a key-less client: nobody is promoted, keyed or handed a message
  schedules  every <=2-deviation schedule (drop/dup/delay) of the handshake
             datagrams of one and of two concurrently connecting clients, plus
             cross-delivery of hellos and challenge responses between sessions
@@ -118,6 +121,11 @@ class HandshakeMonitor(Monitor):
         self.last_sh = {}      # client index -> last SERVER_HELLO-typed datagram handed to that client
         self.to_server = {}    # addr -> list of datagrams delivered to the server from that address
         self.connected = []
+        self.evil = []
+
+    def on_app_message(self, w, end, seq, msg):
+        if b"evil" in bytes(msg):
+            self.evil.append(end)
 
     def on_deliver(self, w, d):
         if d.dst == "s":
@@ -436,6 +444,126 @@ def forgery_work(arg):
 
 
 # ---------------------------------------------------------------------------
+# part 2a': promotion without a handshake - single crafted datagrams (CRC form or sealed under an attacker key), also
+# MULTI-MESSAGE ones whose inner message types differ from the header type, sent from an address the server does not
+# know, to a half-open connection (hello answered, challenge response withheld) and to a connecting client
+
+def _multi(magic, typ, msgs, key=None, ctime=1000, seq=1):
+    """msgs: [(type, payload)]; one message -> the type is the header's; several -> each carries its own"""
+    if len(msgs) == 1:
+        body = struct.pack(">H", 1) + msgs[0][1]
+    else:
+        body = b"".join(struct.pack(">HHB", len(pl), i + 1, t) + pl for i, (t, pl) in enumerate(msgs))
+    hdr = struct.pack(">4sLHHBHBL", magic, ctime, seq, 0, typ, len(body), len(msgs), 0)
+    if key is not None:
+        return hdr + AESGCM(key).encrypt(hdr[:12], body, hdr)
+    d = hdr + body
+    return d + struct.pack(">L", binascii.crc32(d) & 0xFFFFFFFF)
+
+
+def bundle_family(token, att_eph):
+    KA, APP, DISC = PacketType.KEEP_ALIVE.value, PacketType.APP.value, PacketType.DISCONNECT.value
+
+    def cr(tok):
+        m = HandshakeClientChallengeResponseMessage()
+        m.token = tok
+        return m.dumpb()
+
+    def ch(version=1):
+        m = HandshakeClientHelloMessage()
+        m.client_pubkey = att_eph.getPublicKey()
+        m.client_version = version
+        return m.dumpb()
+    toks = [("token 0", 0), ("token 0x40000000", 0x40000000)] + ([("the issued token", token)] if token else [])
+    out = []
+    for tl, tok in toks:
+        for hl, htype in (("CLIENT_HELLO", CH), ("CHALLENGE_RESP", CR), ("APP", APP)):
+            out.append(("header %s, one message: challenge response with %s" % (hl, tl), (htype, [(CR, cr(tok))])))
+            out.append(("header %s, [challenge response with %s, keep-alive]" % (hl, tl), (htype, [(CR, cr(tok)), (KA, b"")])))
+            out.append(("header %s, [keep-alive, challenge response with %s, app message]" % (hl, tl), (htype, [(KA, b""), (CR, cr(tok)), (APP, b"evil")])))
+            out.append(("header %s, [hello of an unsupported version, challenge response with %s]" % (hl, tl), (htype, [(CH, ch(99)), (CR, cr(tok))])))
+            out.append(("header %s, [valid hello, challenge response with %s]" % (hl, tl), (htype, [(CH, ch(1)), (CR, cr(tok))])))
+            out.append(("header %s, [challenge response with %s] x 2" % (hl, tl), (htype, [(CR, cr(tok)), (CR, cr(tok))])))
+    out.append(("header CLIENT_HELLO, [app message, app message]", (CH, [(APP, b"evil"), (APP, b"evil2")])))
+    out.append(("header CLIENT_HELLO, [disconnect, keep-alive]", (CH, [(DISC, b""), (KA, b"")])))
+    return out
+
+
+def bundle_work(arg):
+    k, n = arg
+    att_eph = seams.fixture_keys()[21]
+    viols = {}
+    total = 0
+    outcomes = core.Counter()
+    NEW = ("10.7.7.7", 7777)
+    for target in ("unknown address", "half-open connection", "connecting client"):
+        fam = bundle_family(0x41234567 if target != "unknown address" else 0, att_eph)
+        for i, (label, (htype, msgs)) in enumerate(fam):
+            for form in ("crc", "attacker-key"):
+                total += 1
+                if total % n != k:
+                    continue
+                mon = HandshakeMonitor()
+                w = World(root_index=ROOT, key_offset=KOFF, monitors=[mon], n_clients=2, autoconnect=False)
+                wit = {"part": "bundle", "target": target, "index": i, "form": form}
+                try:
+                    w.client_connect(0)
+                    w.run(40, until=lambda w_: w_.clients[0].client.connected() and w_.clients[0].addr in w_.ctxt.connections)
+                    token = 0
+                    addr = NEW
+                    if target == "connecting client":
+                        w.client_connect(1)
+                        for d in list(w.net):
+                            if d.src == "c1":
+                                w.net.remove(d)     # the server never hears of it: the client stays without a key
+                        label, (htype, msgs) = bundle_family(0x41234567, att_eph)[i]
+                    elif target != "unknown address":
+                        # client 1 says hello; its challenge response is withheld
+                        w.client_connect(1)
+                        for _ in range(6):
+                            w.tick()
+                            for d in list(w.net):
+                                if len(d.data) >= 20 and d.data[12] == CR:
+                                    w.net.remove(d)
+                        tc = w.ctxt.temp_connections.get(w.clients[1].addr)
+                        if tc is None:
+                            viols.setdefault(("harness", "no half-open connection"), [0, wit, label])[0] += 1
+                            continue
+                        token = tc.token
+                        addr = w.clients[1].addr
+                        label, (htype, msgs) = bundle_family(token, att_eph)[i]
+                    key = bytes(range(70, 86)) if form == "attacker-key" else None
+                    n_conn = len(mon.connected)
+                    if target == "connecting client":
+                        # a fresh client whose hello is withheld from the server: it has no key
+                        w2c = _multi(b"FSOC", SH if htype == CH else htype, msgs, key=key, ctime=int(w.vt.now))
+                        w.inject("c1", w2c)
+                    else:
+                        w.inject("s", _multi(b"FSOS", htype, msgs, key=key, ctime=int(w.vt.now)), client_addr=addr)
+                    for _ in range(6):
+                        w.tick()
+                        for d in list(w.net):
+                            if d.src == "c1" and (target == "connecting client" or (len(d.data) >= 20 and d.data[12] == CR)):
+                                w.net.remove(d)
+                        mon.check_clients(w, w.root_key.getPublicKey())
+                    promoted = addr in w.ctxt.connections
+                    outcomes.inc("%s/%s -> promoted=%s" % (target, form, promoted))
+                    if target != "connecting client":
+                        if promoted or len(mon.connected) != n_conn:
+                            viols.setdefault(("promotion", "a single crafted datagram (%s) to the server gets an address reported as connected" % ("sealed under an attacker key" if key else "plaintext+CRC"),),
+                                             [0, wit, "%s: %s" % (target, label)])[0] += 1
+                    for oracle, sig, msg in mon.violations:
+                        viols.setdefault((oracle, sig), [0, wit, "%s: %s | %s" % (target, label, msg)])[0] += 1
+                    if mon.evil:
+                        viols.setdefault(("promotion", "an application message from an unauthenticated datagram reached the application"), [0, wit, "%s: %s -> %r" % (target, label, mon.evil[:2])])[0] += 1
+                    if target == "connecting client" and (w.clients[1].conn.session_key_bytes is not None or w.clients[1].conn.status == ConnectionStatus.CONNECTED):
+                        viols.setdefault(("client-auth", "a crafted datagram without any signed hello gives the client a key / connects it"), [0, wit, "%s: %s" % (target, label)])[0] += 1
+                finally:
+                    w.close()
+    return total, dict(outcomes), viols
+
+
+# ---------------------------------------------------------------------------
 # part 2b: after the honest handshake the agreed key and token stay agreed
 
 def rewrite_seq(d, seq, mseq):
@@ -594,6 +722,13 @@ def run(tier, seed):
         for k, v in r[1].items():
             f_out.inc(k, v)
         fold(r[2])
+    res = core.pmap("checks.c02", "bundle_work", [(k, 16) for k in range(16)])
+    n_bundle = sum(r[0] for r in res) // 16
+    b_out = core.Counter()
+    for r in res:
+        for k, v in r[1].items():
+            b_out.inc(k, v)
+        fold(r[2])
     res = core.pmap("checks.c02", "post_handshake_work", [0])
     n_post = sum(r[0] for r in res)
     for r in res:
@@ -616,9 +751,9 @@ def run(tier, seed):
     rep.coverage = {
         "states": st.points + n_bytes + n_forg, "transitions": st.steps + 14 * (n_bytes + n_forg), "traces_validated_against_impl": st.executions + n_bytes + n_forg,
         "byte_mutants": n_bytes, "byte_mutant_outcomes": dict(outcomes), "byte_mutants_still_connecting_both_ends": accepted,
-        "forgeries": n_forg, "forgery_outcomes": dict(f_out), "post_handshake_injections": n_post,
+        "forgeries": n_forg, "forgery_outcomes": dict(f_out), "post_handshake_injections": n_post, "crafted_single_datagrams": n_bundle, "crafted_outcomes": dict(b_out),
         "schedule_executions": st.executions, "schedule_by_deviations": st.by_cost, "schedule_configurations": len(plist), "schedule_capped": st.capped,
-        "evaluations": n_bytes + n_forg + n_post + st.executions, "distinct_nontrivial": len(outcomes) + len(f_out) + len(st.outcomes),
+        "evaluations": n_bytes + n_forg + n_post + n_bundle + st.executions, "distinct_nontrivial": len(outcomes) + len(f_out) + len(st.outcomes),
         "rule": "one fresh real handshake per substitution; outcomes = (client status, client has key, server promoted, #connect events); "
                 "byte mutants that still complete the handshake only touch unsigned header bytes (oracle (a) holds for them)",
         "exhaustive": not st.capped,
@@ -637,6 +772,12 @@ def replay(witness):
         which = {"SH": SH, "CR": CR, "CH": CH}[witness["datagram"]]
         total, outcomes, viols = bytes_work([(witness["datagram"], which, witness["pos"], witness["xor"], witness["crc_fix"])])
         return [core.Violation(k[0], k[1], witness, v[2]) for k, v in viols.items()]
+    if part == "bundle":
+        out = []
+        for k in range(16):
+            total, outcomes, viols = bundle_work((k, 16))
+            out += [core.Violation(kk[0], kk[1], v[1], v[2]) for kk, v in viols.items() if v[1].get("target") == witness["target"] and v[1].get("index") == witness["index"] and v[1].get("form") == witness["form"]]
+        return out
     if part == "post-handshake":
         total, viols = post_handshake_work(0)
         return [core.Violation(k[0], k[1], witness, v[2]) for k, v in viols.items()]
